@@ -149,6 +149,69 @@ Definition stereo_profile (m1 m2 : mol) (phi : list nat) : list (nat * sdiff) :=
   filter (fun '(_, d) => negb (sdiff_eqb d SSame))
          (map (fun i => (i, stereo_at m1 m2 phi i)) (seq 0 (length (m_atoms m1)))).
 
+(* ------------------------------------------------------------------ double-bond geometry *)
+
+(* the bond a-x seen from a: Some true when x is written "up" from a.  A bond (p, q, "/") is stored with p the
+   end written first, and says that q lies up from p *)
+Definition dir_from (m : mol) (a x : nat) : option bool :=
+  match find (fun '(p, q, _) => (Nat.eqb p a && Nat.eqb q x) || (Nat.eqb p x && Nat.eqb q a)) (m_bonds m) with
+  | Some (p, _, BUp) => Some (Nat.eqb p a)
+  | Some (p, _, BDown) => Some (negb (Nat.eqb p a))
+  | _ => None
+  end.
+
+Definition nbr_list (m : mol) (a : nat) : list nat :=
+  flat_map (fun o => match o with Some j => [j] | None => [] end) (nth a (m_nbrs m) []).
+
+(* the side of substituent x of a, relative to the double bond a=b: its own mark, or else the opposite of the mark
+   of the one other substituent of a *)
+Definition side_of (m : mol) (a b x : nat) : option bool :=
+  match dir_from m a x with
+  | Some d => Some d
+  | None => match filter (fun y => negb (Nat.eqb y b) && negb (Nat.eqb y x)) (nbr_list m a) with
+            | [y] => option_map negb (dir_from m a y)
+            | _ => None
+            end
+  end.
+
+(* Some true: x (on a) and y (on b) lie on the same side of a=b; None: the geometry is not given *)
+Definition cis_of (m : mol) (a b x y : nat) : option bool :=
+  match side_of m a b x, side_of m b a y with
+  | Some d1, Some d2 => Some (Bool.eqb d1 d2)
+  | _, _ => None
+  end.
+
+Definition first_other (m : mol) (a b : nat) : option nat :=
+  match filter (fun y => negb (Nat.eqb y b)) (nbr_list m a) with
+  | y :: _ => Some y
+  | [] => None
+  end.
+
+Definition opt_bool_eqb (a b : option bool) : bool :=
+  match a, b with
+  | Some x, Some y => Bool.eqb x y
+  | None, None => true
+  | _, _ => false
+  end.
+
+Definition geometry_count (m : mol) : nat :=
+  length (filter (fun '(a, b, s) =>
+                    match s, first_other m a b, first_other m b a with
+                    | BDouble, Some x, Some y => match cis_of m a b x y with Some _ => true | None => false end
+                    | _, _, _ => false
+                    end) (m_bonds m)).
+
+(* under phi every double bond of m1 has the geometry (cis, trans or not given) of its image, and m2 has no further
+   double bond with a geometry *)
+Definition ez_same (m1 m2 : mol) (phi : list nat) : bool :=
+  forallb (fun '(a, b, s) =>
+             match s, first_other m1 a b, first_other m1 b a with
+             | BDouble, Some x, Some y =>
+                 opt_bool_eqb (cis_of m1 a b x y) (cis_of m2 (nth a phi 0) (nth b phi 0) (nth x phi 0) (nth y phi 0))
+             | _, _, _ => true
+             end) (m_bonds m1)
+  && (geometry_count m1 =? geometry_count m2).
+
 (* ------------------------------------------------------------------ the relations the properties use *)
 
 (* a marked centre carries no stereo information when inverting it alone gives back the same molecule:
@@ -159,7 +222,7 @@ Definition void_centre (m : mol) (c : nat) : bool :=
                       match stereo_profile m m psi with
                       | [(c', SOpposite)] => Nat.eqb c' c
                       | _ => false
-                      end) (all_isos m m).
+                      end && ez_same m m psi) (all_isos m m).
 
 Definition diff_void (a b : mol) (phi : list nat) (d : nat * sdiff) : bool :=
   match d with
@@ -172,8 +235,8 @@ Definition diff_void (a b : mol) (phi : list nat) (d : nat * sdiff) : bool :=
 Definition same_molecule (m1 m2 : mol) : bool :=
   let a := strip_h m1 in let b := strip_h m2 in
   let isos := all_isos a b in
-  existsb (fun phi => match stereo_profile a b phi with [] => true | _ => false end) isos ||
-  existsb (fun phi => forallb (diff_void a b phi) (stereo_profile a b phi)) isos.
+  existsb (fun phi => match stereo_profile a b phi with [] => true | _ => false end && ez_same a b phi) isos ||
+  existsb (fun phi => forallb (diff_void a b phi) (stereo_profile a b phi) && ez_same a b phi) isos.
 
 Definition same_constitution (m1 m2 : mol) : bool :=
   match all_isos (strip_h m1) (strip_h m2) with [] => false | _ => true end.
@@ -185,7 +248,7 @@ Definition mirror_image (m1 m2 : mol) : bool :=
                                  match a_chir (nth i (m_atoms a) (mkAtom [] false false 0 ChNone 0 0%Z)) with
                                  | ChNone => sdiff_eqb d SSame || diff_void a b phi (i, d)
                                  | _ => sdiff_eqb d SOpposite || void_centre a i end)
-                              (seq 0 (length (m_atoms a))))
+                              (seq 0 (length (m_atoms a))) && ez_same a b phi)
           (all_isos a b).
 
 (* every isomorphism profile, for reporting and for "differs exactly at" tests *)
@@ -208,7 +271,7 @@ Definition constitution_iso (m1 m2 : mol) (phi : list nat) : Prop :=
 (* the same molecule except, possibly, for the stereo marks of the atoms (of m1) that satisfy [ok] *)
 Definition same_except_at (m1 m2 : mol) (ok : nat -> bool) : bool :=
   let a := strip_h m1 in let b := strip_h m2 in
-  existsb (fun phi => forallb (fun d => ok (fst d) || diff_void a b phi d) (stereo_profile a b phi)) (all_isos a b).
+  existsb (fun phi => forallb (fun d => ok (fst d) || diff_void a b phi d) (stereo_profile a b phi) && ez_same a b phi) (all_isos a b).
 
 (* the same constitution, with opposite configuration at exactly the atoms (of m1) that satisfy [at_], equal elsewhere *)
 Definition inverted_exactly_at (m1 m2 : mol) (at_ : nat -> bool) : bool :=
@@ -217,4 +280,4 @@ Definition inverted_exactly_at (m1 m2 : mol) (at_ : nat -> bool) : bool :=
              forallb (fun i => let d := stereo_at a b phi i in
                                if at_ i then sdiff_eqb d SOpposite
                                else sdiff_eqb d SSame || diff_void a b phi (i, d))
-                     (seq 0 (length (m_atoms a)))) (all_isos a b).
+                     (seq 0 (length (m_atoms a))) && ez_same a b phi) (all_isos a b).
